@@ -1098,12 +1098,8 @@ var rR20m = RuleRef{Name: "R20m", Doc: "no uncounted entry: every insertion into
 						}
 						cond, neg = u.X, !neg
 					}
-					ex, ok := cond.(*ssa.Extract)
-					if !ok || ex.Index != 1 {
-						continue
-					}
-					lk, ok := ex.Tuple.(*ssa.Lookup)
-					if !ok || !lk.CommaOk || canon(lk.X) != canon(tbl) || canon(lk.Index) != canon(key) {
+					mc, kc, _, ok := commaOkLookup(cond)
+					if !ok || mc != canon(tbl) || kc != canon(key) {
 						continue
 					}
 					found, gTruth, gBlock = true, !neg, d
@@ -1680,13 +1676,34 @@ var rR16a = RuleRef{Name: "R16a", Doc: "every WAL frame is 8-byte aligned: in en
 					if !ok || ex.Index != 1 || ex.Referrers() == nil {
 						continue
 					}
+					// padBytes sizes what is appended: make([]byte, padBytes), or the first padBytes bytes of a zero array
+					var sized []ssa.Value
 					for _, rr := range *ex.Referrers() {
-						if ms, ok := rr.(*ssa.MakeSlice); ok && ms.Referrers() != nil {
-							for _, r3 := range *ms.Referrers() {
-								if ap, ok := r3.(*ssa.Call); ok {
-									if bi, ok := ap.Call.Value.(*ssa.Builtin); ok && bi.Name() == "append" {
-										padded = true
-									}
+						switch y := rr.(type) {
+						case *ssa.MakeSlice:
+							if y.Len == ssa.Value(ex) {
+								sized = append(sized, y)
+							}
+						case *ssa.Slice:
+							if y.High == ssa.Value(ex) && (y.Low == nil || isZeroConst(y.Low)) {
+								sized = append(sized, y)
+							}
+						}
+					}
+					for i := 0; i < len(sized) && i < 8; i++ {
+						v := sized[i]
+						if v.Referrers() == nil {
+							continue
+						}
+						for _, r3 := range *v.Referrers() {
+							switch y := r3.(type) {
+							case *ssa.Slice:
+								if y.X == v && y.Low == nil && y.High == nil {
+									sized = append(sized, y)
+								}
+							case *ssa.Call:
+								if bi, ok := y.Call.Value.(*ssa.Builtin); ok && bi.Name() == "append" && len(y.Call.Args) == 2 && y.Call.Args[1] == v {
+									padded = true
 								}
 							}
 						}
@@ -1939,22 +1956,15 @@ var rR11t = RuleRef{Name: "R11t", Doc: "a bulk body is accepted only with its CR
 			if !isI {
 				return "", false, false
 			}
-			sub, isS := ia.Index.(*ssa.BinOp)
-			if !isS || sub.Op != token.SUB {
-				return "", false, false
-			}
-			off, isO := sub.Y.(*ssa.Const)
-			ln, isL := sub.X.(*ssa.Call)
-			if !isO || !isL {
-				return "", false, false
-			}
-			if bi, ok := ln.Call.Value.(*ssa.Builtin); !ok || bi.Name() != "len" || canon(ln.Call.Args[0]) != canon(ia.X) {
+			// the index as len(buffer) - off, however the subtraction is spelled (len(b)-2; last := len(b)-1, last-1)
+			off, isO := lenOffset(ia.Index, ia.X, 0)
+			if !isO {
 				return "", false, false
 			}
 			switch {
-			case k.Int64() == '\n' && off.Int64() == 1:
+			case k.Int64() == '\n' && off == 1:
 				return "LF", bo.Op == token.EQL, true
-			case k.Int64() == '\r' && off.Int64() == 2:
+			case k.Int64() == '\r' && off == 2:
 				return "CR", bo.Op == token.EQL, true
 			}
 			return "", false, false
@@ -2071,6 +2081,16 @@ var rR20q = RuleRef{Name: "R20q", Doc: "a command runs on the database its conne
 			n++
 			good := false
 			why := "the database argument is not a load of a field of the connection state handed to this function"
+			if call, ok := a.(*ssa.Call); ok && fn.Parent() == nil && len(call.Call.Args) == 1 {
+				// st.selected(): an accessor that returns the field, called on the state handed to this function
+				if _, isG := thinGetter(callee(call)); isG {
+					if prm, isParam := call.Call.Args[0].(*ssa.Parameter); isParam {
+						if st, ok := derefNamed(prm.Type()); ok && st.Obj().Pkg() != nil && st.Obj().Pkg().Name() == "server" && st != c.P.NamedType("server", "Manager") {
+							good = true
+						}
+					}
+				}
+			}
 			if u, ok := a.(*ssa.UnOp); ok && u.Op == token.MUL {
 				if fa, ok := u.X.(*ssa.FieldAddr); ok {
 					if _, isParam := fa.X.(*ssa.Parameter); isParam && fn.Parent() == nil {
@@ -2301,4 +2321,34 @@ func collectedElements(v ssa.Value, seen map[ssa.Value]bool) []ssa.Value {
 		}
 	}
 	return out
+}
+
+// lenOffset: idx is len(x) - off for a constant off >= 0, through any chain of additions and subtractions of constants.
+func lenOffset(idx ssa.Value, x ssa.Value, depth int) (int64, bool) {
+	if depth > 6 {
+		return 0, false
+	}
+	switch y := idx.(type) {
+	case *ssa.Call:
+		if bi, ok := y.Call.Value.(*ssa.Builtin); ok && bi.Name() == "len" && len(y.Call.Args) == 1 && canon(y.Call.Args[0]) == canon(x) {
+			return 0, true
+		}
+	case *ssa.BinOp:
+		if k, ok := constInt(y.Y); ok && (y.Op == token.SUB || y.Op == token.ADD) {
+			off, ok := lenOffset(y.X, x, depth+1)
+			if !ok {
+				return 0, false
+			}
+			if y.Op == token.SUB {
+				return off + k, true
+			}
+			return off - k, true
+		}
+	}
+	return 0, false
+}
+
+func isZeroConst(v ssa.Value) bool {
+	k, ok := constInt(v)
+	return ok && k == 0
 }
